@@ -2,6 +2,7 @@
 //! implementation in /repo (path dependency, rebuilt from the working tree).
 
 mod auth_driver;
+mod blockstore_driver;
 #[allow(dead_code)]
 mod cases;
 mod dissem_driver;
@@ -9,6 +10,7 @@ mod execstate_driver;
 mod graph;
 mod merkle_driver;
 mod pool_driver;
+mod repair_driver;
 mod sim;
 mod sampler_driver;
 mod shred_driver;
@@ -75,6 +77,8 @@ fn main() -> anyhow::Result<()> {
         }
         "replay-sampler" => sampler_driver::run(&args, seed)?,
         "replay-shred" => shred_driver::run(&args, seed)?,
+        "replay-repair" => repair_driver::run(&args, seed)?,
+        "replay-blockstore" => blockstore_driver::run(&args, seed)?,
         "replay-wire" => wire_driver::replay(
             &arg_after(&args, "--tlc-out").expect("--tlc-out"),
             seed,
